@@ -159,6 +159,18 @@ pub struct Amount {
     pub(crate) units: Option<String>,
 }
 
+/// Verification hook: access to the crate-private fields of [`Amount`]
+#[cfg(cooklang_verif)]
+impl Amount {
+    pub fn verif_new(quantity: Value, units: Option<String>) -> Self {
+        Self { quantity, units }
+    }
+
+    pub fn verif_parts(&self) -> (&Value, Option<&str>) {
+        (&self.quantity, self.units.as_deref())
+    }
+}
+
 #[derive(uniffi::Enum, Debug, Clone, PartialEq)]
 pub enum Value {
     Number { value: f64 },
